@@ -46,6 +46,17 @@ let spec input obs_s =
     Stdlib.List.iter (fun (i, code) -> if code <> 404 then fail "forbidden-served" (Printf.sprintf "GET header %d -> %d" i code)) o.http;
     if not (SyncSpec.spec_desc_orphan sc.hist.forbidden rows) then fail "forbidden-descendant-not-orphan" "";
     if not (SyncSpec.spec_desc_orphan_all sc.hist.forbidden rows) then fail "forbidden-descendant-not-orphan" "(at depth >= 2)";
+    (* the final table: one LONGEST_CHAIN header per height, each the child of the LONGEST_CHAIN header one below *)
+    (let ls = Stdlib.List.filter (fun (_, _, _, _, stt) -> stt = "L") o.rows in
+     let by_h = Hashtbl.create 64 in
+     Stdlib.List.iter (fun (i, _, h, _, _) ->
+         (match Hashtbl.find_opt by_h h with
+          | Some j -> fail "two-longest-chain-headers-at-one-height" (Printf.sprintf "height %d: %d and %d" h j i)
+          | None -> ());
+         Hashtbl.replace by_h h i) ls;
+     Stdlib.List.iter (fun (i, p, h, _, _) ->
+         if h > 0 && Hashtbl.find_opt by_h (h - 1) <> Some p then
+           fail "longest-chain-not-linked" (Printf.sprintf "header %d at height %d: parent %d is not the longest-chain header below" i h p)) ls);
     (* the trace *)
     let is_x = sc.eng = "x" in
     let next_of st = if is_x then (match st with h :: _ -> int_of_string h | [] -> -1)
@@ -229,7 +240,7 @@ let spec input obs_s =
             (try let (ch, rs, _, _) = Stdlib.List.assoc (int_of_n q) st in
                let k = int_of_nat k in ch := !ch @ take k !rs; rs := drop k !rs with Not_found -> ())
           | _ -> ()) sc.cmds;
-      let bad_anywhere i = is_forb i || (match th i with Some h -> (match cp_id_at h with Some c -> c <> i | None -> false) | None -> true) in
+      let bad_anywhere i = Stdlib.List.exists is_forb (ancestors i) (* forbidden, or a descendant of a forbidden header *) || (match th i with Some h -> (match cp_id_at h with Some c -> c <> i | None -> false) | None -> true) in
       let honest = Stdlib.List.filter (fun (_, (ch, _, conn, gone)) -> !conn && not !gone && !ch <> [] && not (Stdlib.List.exists bad_anywhere !ch)) st in
       if honest <> [] && not !caveat then begin
         incr n_conv;
